@@ -440,6 +440,9 @@ async def open_child_case(case: dict[str, Any], sc: Scenario) -> None:
                         await anyio.sleep(0.1)  # the child's task is over
                         gc.collect()
                     if case.get("parent_leave") == "raise":
+                        if case.get("falsy_contexts"):
+                            # (an exception that is a falsy object - an aggregate of errors with no entries - is an exception all the same)
+                            raise type("EmptyAggregate", (BlockFailed,), {"__len__": lambda self: 0})("the parent's block failed")
                         raise BlockFailed("the parent's block failed")
                     if case.get("parent_leave") == "cancel":
                         leave_scope.cancel()
